@@ -484,11 +484,17 @@ def K10_K11_codec(rep, flow: Flow, tier):
     comp, dec = gc.methods.get("compress"), gc.methods.get("decompress")
     if comp is None or dec is None:
         raise AnalysisError("Graph.compress / Graph.decompress vanished")
-    # --- loop-nest shape
+    # --- loop-nest shape (makes the codec linear in the edges, so that the unit graphs decide it); code of another
+    # shape (vectorised, memoised ...) is decided by evaluating it on EVERY graph instead
+    def nest(f):
+        outer = [n for n in f.node.body if isinstance(n, ast.For)]
+        return len(outer) == 1 and any(isinstance(n, ast.For) for n in outer[0].body)
+    if not (nest(comp) and nest(dec)):
+        _k10_exhaustive(rep, flow, tier, comp, dec)
+        _k11_primitives(rep, prog, gc)
+        return
     for f in (comp, dec):
         outer = [n for n in f.node.body if isinstance(n, ast.For)]
-        if len(outer) != 1 or not any(isinstance(n, ast.For) for n in outer[0].body):
-            raise AnalysisError(f"{f.fq}: not a two-level loop nest")
         inner = next(n for n in outer[0].body if isinstance(n, ast.For))
         incs = [st for st in inner.body if isinstance(st, ast.AugAssign) and isinstance(st.op, ast.Add) and isinstance(st.value, ast.Constant) and st.value.value == 1]
         all_incs = [n for n in ast.walk(f.node) if isinstance(n, ast.AugAssign) and isinstance(n.op, ast.Add) and isinstance(n.target, ast.Name)]
@@ -532,6 +538,69 @@ def K10_K11_codec(rep, flow: Flow, tier):
         rep.finding("K10", "compress:doc-example", f"graph.py Graph.compress: the docstring's 5x5 example compresses to {bin(got)}, documented 0b0110011011")
     else:
         rep.ok("K10", 1, nontrivial="doc-example", sample="docstring example -> 0b0110011011")
+    _k11_primitives(rep, prog, gc)
+
+
+def _k10_chunk(args):
+    root, overlay, n, lo, hi = args
+    from .vfs import Tree
+    return _k10_eval(pyfacts.Program(Tree(root, overlay)), n, lo, hi)
+
+
+def _k10_eval(prog, n, lo, hi):
+    gc = prog.cls("graph.Graph")
+    comp, dec = gc.methods["compress"], gc.methods["decompress"]
+    ce = CE(prog, max_steps=2_000_000_000)
+    pairs = [(i, j) for i in range(n) for j in range(i + 1, n)]
+    ok, bad = 0, []
+    for mask in range(lo, hi):
+        edges = [p for k, p in enumerate(pairs) if mask >> k & 1]
+        want = sum(1 << spec.bit_of_edge(n, i, j) for (i, j) in edges)
+        try:
+            got = ce.call_func(comp, [_graph(ce, prog, n, edges)], {})
+            g2 = ce.call_func(dec, [n, want], {})
+        except CERaise as ex:
+            bad.append((f"codec:raise:{n}:{mask}", f"graph.py Graph.compress / decompress raise {ex.etype} on the graph with edges {edges} ({n} vertices)"))
+            continue
+        why = _graph_problem(g2, n, edges)
+        if got != want:
+            bad.append((f"compress:{n}:{mask}", f"graph.py Graph.compress: the graph with edges {edges} on {n} vertices compresses to {got}, the documented bit layout gives {want}"))
+        elif why:
+            bad.append((f"decompress:{n}:{mask}", f"graph.py Graph.decompress({n}, {want}): {why}"))
+        else:
+            ok += 1
+        if len(bad) > 40:
+            break
+    return ok, bad, ce.steps
+
+
+def _k10_exhaustive(rep, flow, tier, comp, dec):
+    nmax = 5 if tier == "quick" else 6
+    prog = flow.prog
+    rep.note(f"K10: compress / decompress are not plain two-level loop nests; decided by evaluating both on every graph on 2..{nmax} vertices"
+             + (" (n = 6: single-edge graphs only in the quick tier, every graph in the thorough tier)" if nmax == 5 else ""))
+    jobs = []
+    for n in range(2, nmax + 1):
+        total = 1 << (n * (n - 1) // 2)
+        step = total if n <= 4 else total // (16 if n == 5 else 64)
+        jobs += [(n, lo, min(total, lo + step)) for lo in range(0, total, step)]
+    if nmax == 5:
+        jobs += [(6, 1 << k, (1 << k) + 1) for k in range(15)]
+    import concurrent.futures
+    with concurrent.futures.ProcessPoolExecutor(max_workers=16) as ex:
+        results = list(ex.map(_k10_chunk, [(flow.tree.root, flow.tree.overlay) + j for j in jobs]))
+    steps = 0
+    for (ok, bad, st) in results:
+        steps += st
+        if ok:
+            rep.ok("K10", ok, distinct=ok, sample="compress(g) = documented id and decompress(n, id) = g, graph by graph")
+        for (key, msg) in bad:
+            rep.finding("K10", key, msg)
+    rep.analysed["K10 exhaustive evaluation steps"] = steps
+
+
+def _k11_primitives(rep, prog, gc):
+    ce = CE(prog, max_steps=50_000_000)
     # --- K11
     g = _graph(ce, prog, 3, [(0, 1)])
     A = g.attrs["adjacency_matrix"].d
@@ -563,6 +632,7 @@ def _k12_eval(prog, n, lo, hi):
     gc = prog.cls("graph.Graph")
     ce = CE(prog, max_steps=2_000_000_000)
     forms = [(nm, gc.methods[nm]) for nm in ("local_complementation", "local_complemented") if nm in gc.methods]
+    comp = gc.methods.get("compress")
     pairs = [(i, j) for i in range(n) for j in range(i + 1, n)]
     ok, bad, sample = 0, [], None
     for mask in range(lo, hi):
@@ -578,12 +648,25 @@ def _k12_eval(prog, n, lo, hi):
             for (nm, meth) in forms:
                 g = _graph(ce, prog, n, edges)
                 try:
+                    # the id is asked for before and after: an id remembered by the object must follow the edges
+                    id0 = ce.call_func(comp, [g], {}) if comp is not None else None
                     res = ce.call_func(meth, [g, v], {})
                 except CERaise as ex:
                     bad.append((f"{nm}:raise:{n}:{edges}:{v}", f"graph.py Graph.{nm}({v}) on edges {edges} raises {ex.etype}"))
                     continue
                 out = g if nm == "local_complementation" else res
                 why = _graph_problem(out, n, want)
+                if why is None and comp is not None:
+                    try:
+                        id1 = ce.call_func(comp, [out], {})
+                    except CERaise as ex:
+                        id1 = f"raises {ex.etype}"
+                    w0 = sum(1 << spec.bit_of_edge(n, a, b) for (a, b) in eset)
+                    w1 = sum(1 << spec.bit_of_edge(n, a, b) for (a, b) in want)
+                    if id0 != w0:
+                        why = f"compress() of the graph gives {id0}, its edges encode {w0}"
+                    elif id1 != w1:
+                        why = f"compress() after the complementation gives {id1}, but the adjacency matrix now encodes {w1} (compress() before it gave {id0})"
                 if why is None and nm == "local_complemented":
                     A0 = g.attrs["adjacency_matrix"].d
                     if {(a, b) for (a, b) in pairs if A0[a][b]} != eset:
@@ -609,7 +692,7 @@ def _k12_eval(prog, n, lo, hi):
 
 def K12_local_complementation(rep, flow: Flow, tier):
     nmax = 5 if tier == "quick" else 6
-    rep.rule("K12", f"local complementation (in-place and copying form), evaluated for EVERY graph on 2..{nmax} vertices and every vertex: exactly the edges among the neighbours are complemented, the result is a simple graph (symmetric 0/1, zero diagonal), applying it twice gives the original back, the copying form leaves its receiver untouched", floor=10, exhaustive=True)
+    rep.rule("K12", f"local complementation (in-place and copying form), evaluated for EVERY graph on 2..{nmax} vertices and every vertex: exactly the edges among the neighbours are complemented, the result is a simple graph (symmetric 0/1, zero diagonal), applying it twice gives the original back, the copying form leaves its receiver untouched, and compress() - asked before and after - follows the edges", floor=10, exhaustive=True)
     prog = flow.prog
     gc = prog.cls("graph.Graph")
     if not any(nm in gc.methods for nm in ("local_complementation", "local_complemented")):
@@ -618,13 +701,13 @@ def K12_local_complementation(rep, flow: Flow, tier):
     jobs = []
     for n in range(2, nmax + 1):
         total = 1 << (n * (n - 1) // 2)
-        if n <= 5:
+        if n <= 4:
             jobs.append((n, 0, total))
         else:
-            step = total // 64
+            step = total // (16 if n == 5 else 64)
             jobs += [(n, lo, min(total, lo + step)) for lo in range(0, total, step)]
-    small = [j for j in jobs if j[0] <= 5]
-    big = [j for j in jobs if j[0] > 5]
+    small = [j for j in jobs if j[0] <= 4]
+    big = [j for j in jobs if j[0] > 4]
     results = [_k12_eval(prog, *j) for j in small]
     if big:
         import concurrent.futures
